@@ -142,6 +142,29 @@ def run(c: sym.Ctx, spec: Dict[str, Any], n_msgs: int = 1) -> Lab:
                     return finish(i)
                 finally:
                     lab.rec("task_end", i)
+        elif deps == "nocache":
+            d_c = dep_gen("c")
+
+            def d_d(cc: str = TaskiqDepends(d_c, use_cache=False)) -> Any:
+                lab.rec("dep_open", "d")
+                try:
+                    yield "d"
+                except BaseException as exc:  # noqa: BLE001
+                    lab.rec("dep_exc", "d", type(exc).__name__)
+                    raise
+                finally:
+                    lab.rec("dep_close", "d")
+
+            d_e = dep_gen("e")
+
+            async def target(i: int, d: str = TaskiqDepends(d_d, use_cache=False), e: str = TaskiqDepends(d_e, use_cache=False)) -> Any:  # type: ignore[misc]
+                lab.rec("task_start", i)
+                try:
+                    if outcome_of(i) == "timeout":
+                        await lab.gate(f"hang:{i}")
+                    return finish(i)
+                finally:
+                    lab.rec("task_end", i)
         elif deps == "fail":
             async def target(i: int, a: str = TaskiqDepends(d_a), f: str = TaskiqDepends(d_f)) -> Any:  # type: ignore[misc]
                 lab.rec("task_start", i)
